@@ -233,8 +233,10 @@ def _run_limited(binary, env_extra, cwd):
     env = c.go_env()
     env.update({k: str(v) for k, v in env_extra.items()})
     lim = _AS_GB << 30
-    return subprocess.run([binary, "-test.run", "^TestHarness$", "-test.timeout", "0"], env=env, cwd=cwd, capture_output=True, text=True, timeout=3600,
-                          preexec_fn=lambda: resource.setrlimit(resource.RLIMIT_AS, (lim, lim)))
+    p = subprocess.run([binary, "-test.run", "^TestHarness$", "-test.timeout", "0"], env=env, cwd=cwd, stdout=subprocess.DEVNULL, stderr=subprocess.PIPE, text=True, timeout=3600,
+                       preexec_fn=lambda: resource.setrlimit(resource.RLIMIT_AS, (lim, lim)))
+    p.stdout = ""
+    return p
 
 
 def c16(tier, seed, replay_path=None):
